@@ -4,6 +4,7 @@ import (
 	"flag"
 	"fmt"
 	"os"
+	"path/filepath"
 	"runtime/debug"
 	"sort"
 	"strconv"
@@ -153,6 +154,7 @@ func main() {
 				}()
 				registry[id].run(ca)
 			}()
+			ca = asWritten(w, *repo, overlay, *tags, id, *tier, *verif, ca)
 			ca.applyFloors()
 			for _, o := range ca.Obls {
 				if o.Verdict != vOK {
@@ -189,6 +191,7 @@ func main() {
 		}()
 		pr.run(c)
 	}()
+	c = asWritten(w, *repo, overlay, *tags, *prop, *tier, *verif, c)
 	meta := pr.meta
 	meta.assumptions = append(append([]string{}, commonAssumptions...), meta.assumptions...)
 	if *tier == "thorough" && *mutant == "" {
@@ -276,6 +279,68 @@ func main() {
 		return
 	}
 	os.Exit(c.finish(*verif, meta, seed, start))
+}
+
+// unknownFindings counts the obligations of c that are not discharged and not recorded as known
+// findings of c's property (floors included, without modifying c).
+func unknownFindings(c *Checker, verif string) int {
+	known, _ := loadKnown(filepath.Join(verif, "KNOWN_FINDINGS.txt"))
+	n := 0
+	for _, o := range c.Obls {
+		if o.Verdict == vOK {
+			continue
+		}
+		isKnown := false
+		for _, k := range known {
+			if k.Kind == "known" && k.Prop == c.Prop && k.Rule == o.Rule && k.Key == o.Key {
+				isKnown = true
+			}
+		}
+		if !isKnown {
+			n++
+		}
+	}
+	for r, fl := range c.floors {
+		if c.countRule(r) < fl {
+			n++
+		}
+	}
+	return n
+}
+
+// asWritten: the helper normalisation produces an equivalent program; so does leaving the source
+// alone. When the normalised form leaves obligations open, the tree is judged once more exactly as
+// written (some rules know a helper idiom that the spliced-in form hides); the property is reported
+// violated only if both equivalent forms leave something open.
+var rawWorld *World
+
+func asWritten(w *World, repo string, overlay map[string][]byte, tags, id, tier, verif string, c *Checker) *Checker {
+	if w.Normalised == nil || len(w.Normalised.Inlined) == 0 || unknownFindings(c, verif) == 0 {
+		return c
+	}
+	if rawWorld == nil {
+		skipNormalise = true
+		w0, err := LoadWorld(repo, overlay, tags)
+		skipNormalise = false
+		if err != nil {
+			return c
+		}
+		w0.Normalised = &NormaliseNote{NewFuncs: w.Normalised.NewFuncs, Kept: []string{"judged as written: the normalised form left obligations open, the source as written does not"}}
+		rawWorld = w0
+	}
+	c0 := newChecker(rawWorld, id, tier)
+	func() {
+		defer func() {
+			if r := recover(); r != nil {
+				c0.fail("CHECKER-PANIC", fmt.Sprint(r), 0, "the checker panicked")
+			}
+		}()
+		registry[id].run(c0)
+	}()
+	if unknownFindings(c0, verif) == 0 {
+		return c0
+	}
+	return c
 }
 
 func dumpFunc(w *World, f *ssa.Function) {
